@@ -68,7 +68,7 @@ pub fn f1_soup(rng: &mut Rng, name: &str) -> Def {
     let nskip = [0, 0, 1, 1, 2][rng.below(5)];
     for _ in 0..nskip {
         let text = if rng.chance(1, 2) {
-            rng.pick_str(&[" ", "[ \\n]+", "\\x20+", "[ \\t\\n]", "_+", "-", "//[a-c]*"]).to_string()
+            rng.pick_str(&[" ", "[ \\n]+", "\\x20+", "[ \\t\\n]", "_+", "-", "//[a-c]*", "\\s+", "\\s", "[^a-zA-Z0-9]", "\\p{Zs}+", "#.", "\\W"]).to_string()
         } else {
             rand_re(rng, &cfg, 1).render()
         };
@@ -229,7 +229,7 @@ pub fn f4_bytes(rng: &mut Rng, name: &str) -> Def {
         }
     }
     if rng.chance(1, 2) {
-        def.push(Pat::skip(rng.pick_str(&[" ", "(?-u:\\x00)", "[ \\n]+"])));
+        def.push(Pat::skip(rng.pick_str(&[" ", "(?-u:\\x00)", "[ \\n]+", "\\s+", "#.", "[^a-z0-9]", "\\p{Zs}"])));
     }
     assign_priorities(rng, &mut def);
     maybe_slice_variants(rng, &mut def);
@@ -791,6 +791,9 @@ pub fn f7_curated() -> Vec<Def> {
     mk(false, vec![Pat::regex("q(?s-u:[^\\x00])", 0), Pat::regex("r(?s-u:[^\\xFF])r", 0)]);
     mk(true, vec![Pat::regex("<[[:ascii:]&&[^>]]>", 0), Pat::regex("k[ad]k", 0)]);
     mk(true, vec![Pat::regex("\\[[\\x00-\\x7F&&[^\\]\\n]]\\]", 0), Pat::token("\n", 0)]);
+    // byte-mode lexers with Unicode-aware (str literal) skip patterns
+    mk(false, vec![Pat::skip("\\s+"), Pat::regex("[a-z]+", 0), Pat::regex("(?-u:[\\x80-\\xFF])", 0).prio(1)]);
+    mk(false, vec![Pat::skip("#."), Pat::skip("[^a-z#]").prio(1), Pat::regex("[a-z]+", 0)]);
     // only skips, no variant at all
     mk(true, vec![Pat::skip("[ \\n]+"), Pat::skip("#[a-z]*")]);
     // no pattern can ever match (empty languages): the root must not keep edges into itself
